@@ -91,7 +91,7 @@ def generate(streams: Streams, tier: str, index: int) -> dict:
 
 
 EDIT_KINDS = ["link", "link", "data", "reverse", "sort", "setitem", "delitem", "pop", "insert",
-              "append", "extend", "mutate", "mutate", "linked_write", "remove_small", "clear",
+              "append", "extend", "mutate", "mutate", "jitter", "linked_write", "remove_small", "clear",
               "member_link", "member_reverse", "copy_roundtrip"]
 
 
@@ -170,6 +170,14 @@ def _edit_emulsion(em, op) -> str:
         pos = d.position.copy()
         pos[-1] += 0.25  # along the last axis only: axisymmetric droplets must stay on the z-axis
         d.position = pos
+    elif e == "jitter":
+        # numerical noise far below any tolerance, assigned through the public setter (an
+        # axisymmetric droplet stays within the tolerance of its on-axis check)
+        d = em[i % n]
+        pos = d.position.copy()
+        pos[0] += 3e-12
+        pos[-1] -= 1e-13
+        d.position = pos
     elif e == "linked_write":
         arr = em.get_linked_data()
         arr["radius"][i % n] = float(arr["radius"][i % n]) * x + 0.5
@@ -230,6 +238,11 @@ def apply_edit(obj, op) -> str:
     elif e in ("mutate", "linked_write"):
         d = obj.droplets[i % n]
         d.radius = float(d.radius) * x
+    elif e == "jitter":
+        d = obj.droplets[i % n]
+        pos = d.position.copy()
+        pos[0] += 3e-12
+        d.position = pos
     elif e == "data":
         obj.data  # noqa: B018
     else:
